@@ -393,6 +393,7 @@ func checkC15(run *mon.Run, rng *mon.Rand, thorough bool) {
 	sort.Strings(names)
 	for _, vn := range names {
 		c.scriptedLateRelay(vn, c15PowerVectors[vn])
+		c.scriptedHarvestedSignatures(vn, c15PowerVectors[vn])
 	}
 	rounds := pick(thorough, 8, 60)
 	perRound := pick(thorough, 60, 150)
@@ -461,6 +462,26 @@ func checkC15(run *mon.Run, rng *mon.Rand, thorough bool) {
 		}
 	}
 	run.Extra["power_vectors"] = names
+}
+
+// scriptedHarvestedSignatures: (1) a genuine, complete commit for (height, round) is accepted; (2) the executor submits
+// another commit for the same height and round that carries the very same signatures, now attached to extensions with
+// other prices and a newer timestamp. A signature is valid only over the extension it was given for.
+func (c *c15) scriptedHarvestedSignatures(vn string, powers []int64) {
+	for _, round := range []int32{0, 2} {
+		o := newOracleEnv(powers, c15Pairs)
+		var log []string
+		t1, t2 := int64(1_700_000_000_000_001_000), int64(1_700_000_000_000_009_000)
+		h := uint64(o.HostHeight) + 1
+		genuine := pricesAt(1_000_000, t1)
+		c.deliver(o, c15Case{kind: "honest-all", specs: o.HonestSpecs(genuine), height: h, round: round, sender: o.Executors[0]}, vn, true, &log)
+		var specs []voteSpec
+		for i := range o.Host {
+			specs = append(specs, voteSpec{Val: i, Flag: cmtproto.BlockIDFlagCommit, Prices: pricesAt(7, t2), Sig: sigOverOtherExtension, SignedPrices: genuine})
+		}
+		c.deliver(o, c15Case{kind: "harvested-signatures", specs: specs, height: h, round: round, sender: o.Executors[0]}, vn, true, &log)
+		c.run.Distinct(fmt.Sprintf("scripted-harvested-signatures/%s/round%d", vn, round))
+	}
 }
 
 // scriptedLateRelay: (1) a full update at t1; (2) an update at t3 in which one pair lacks quorum and keeps t1;
